@@ -1371,6 +1371,49 @@ def register(R):
     register_lexer(R)
 
 
+# ===========================================================================
+# Lemmas over the contracts above (ghost programs; the clause functions are fetched from the registered contracts by label, so a
+# contract that is weakened or renamed breaks the lemma or makes it impossible to state - a machinery error, never a silent pass)
+def _clause_of(contract, label, where="ensures"):
+    from pyvc.spec import split_label
+
+    for j, cl in enumerate(getattr(contract, where)):
+        lab, body = split_label(cl, f"{where}{j}")
+        if lab == label:
+            return body
+    raise KeyError(f"{contract.key}: no {where} clause labelled {label!r} (a lemma of contracts/C15.py is stated over it)")
+
+
+def lemmas():
+    """PREMATURE END OF THE DOCUMENT (token level).  A stream in which the bracket opened by the document's first '(' is never closed
+    (bracket depth >= 1 at every position behind it, up to and including the end of the stream) cannot make Parser._parse / Parser.parse
+    return normally: their postcondition `returns only for a complete document` is unsatisfiable on such a stream.  Both functions list
+    ValueError (parse) resp. the parser's own error classes (_parse) as their only exceptional exits, every loop has a variant: so a
+    prematurely ended document is REJECTED WITH AN ERROR (partial correctness for the mutual recursion of the descent)."""
+    from pyvc.spec import Registry
+    from pyvc.verify import Setup, Verifier
+
+    R = Registry()
+    register(R)
+    out = []
+    for key, label in ((P + "_parse", "returns-only-after-the-close-matching-the-first-open-at-depth-0-inside-the-stream"),
+                       (P + "parse", "returns-only-for-a-complete-document")):
+        c = next(x for x in R.alts[key] if x.prop == "C15" and not x.variants)
+        E = Verifier(R, "C15")
+        E.variant = ""
+        S = Setup(E)
+        before, after = {"self": parser_obj(S)}, {"self": parser_obj(S)}  # an arbitrary entry state and an arbitrary exit state
+        E.assume(cur(before) == 0)
+        for lm in c.lemmas:  # the definition of K0 (leading comments), as in the carrier's own proof
+            lm(E, None)
+        j = z3.Int("tr!j")
+        E.assume(z3.ForAll([j], z3.Implies(z3.And(j > K0, j <= NTOK), DEPTH(j) >= 1)))  # the first '(' is never closed inside the stream
+        complete = _clause_of(c, label)(E, dict(after, result=fresh("ref", "root")), before)
+        out.append((f"premature-end/{key.split('.')[-1]}-cannot-return-normally-when-the-first-open-bracket-is-never-closed", list(E.pc), z3.Not(complete)))
+        out.append((f"cover:premature-end/{key.split('.')[-1]}", list(E.pc), None))
+    return out
+
+
 def regex_facts():
     """regex-language facts of this property (contracts/regex_facts.py): obligations C15/regex/<label>"""
     from contracts import regex_facts as RF
